@@ -329,8 +329,125 @@ func runC12(c *an.Ctx) {
 	c.Check(okResume, "R3", "transformArg: a hit at index i resumes at i+1", fn.Pos(), "the transformation loop starts at i + 1 after a hit, at 0 otherwise", "after a cache hit the remaining transformations do not start at the index following the hit")
 	c.Check(initOK, "R3", "transformArg: without a hit the chain starts from the input", fn.Pos(), "the running value enters the transformation loop as arg.Value() when nothing was cached", "the running value does not start from arg.Value()")
 
+	// ---- R3 (cont.) every value the operator is given comes out of the rule's transformation list.
+	c12OperatorInput(c)
+
 	// ---- R4 interning.
 	c12Interning(c)
+}
+
+// c12OperatorInput: in Rule.doEvaluate the argument of executeOperator is traced back through the per-value
+// buffer (args[0] = ..., args = ..., range args[:n]) to its producers: each must be a result of transformArg or
+// transformMultiMatchArg.  A constant, the untransformed value or anything else means some values reach the
+// operator without the rule's transformations (t:length of "" is "0", not "").
+func c12OperatorInput(c *an.Ctx) {
+	fn := c.Fn("R3", "internal/corazawaf.(*Rule).doEvaluate")
+	eo := c.Fn("R3", "internal/corazawaf.(*Rule).executeOperator")
+	if fn == nil || eo == nil {
+		return
+	}
+	isProducer := func(call *ssa.Call) bool {
+		sc := call.Call.StaticCallee()
+		return sc != nil && relPkg(sc) == pkgWAF && (sc.Name() == "transformArg" || sc.Name() == "transformMultiMatchArg")
+	}
+	n := 0
+	an.Instrs(fn, func(in ssa.Instruction) {
+		if !an.IsCallTo(in, eo) {
+			return
+		}
+		n++
+		var bad []string
+		seen := map[ssa.Value]bool{}
+		var walk func(v ssa.Value, d int)
+		var walkSlice func(v ssa.Value, d int)
+		leaf := func(v ssa.Value) {
+			bad = append(bad, tempName.ReplaceAllString(an.Expr(v), ""))
+		}
+		walk = func(v ssa.Value, d int) {
+			if seen[v] || d > 12 {
+				return
+			}
+			seen[v] = true
+			switch x := v.(type) {
+			case *ssa.Phi:
+				for _, e := range x.Edges {
+					walk(e, d+1)
+				}
+			case *ssa.UnOp:
+				if x.Op == token.MUL {
+					if ia, ok := x.X.(*ssa.IndexAddr); ok {
+						walkSlice(ia.X, d+1)
+						return
+					}
+				}
+				leaf(v)
+			case *ssa.Extract:
+				if call, ok := x.Tuple.(*ssa.Call); ok && isProducer(call) {
+					return
+				}
+				leaf(v)
+			case *ssa.Call:
+				if isProducer(x) {
+					return
+				}
+				leaf(v)
+			default:
+				leaf(v)
+			}
+		}
+		walkSlice = func(v ssa.Value, d int) {
+			if seen[v] || d > 12 {
+				return
+			}
+			seen[v] = true
+			switch x := v.(type) {
+			case *ssa.Phi:
+				for _, e := range x.Edges {
+					walkSlice(e, d+1)
+				}
+			case *ssa.Slice:
+				walkSlice(x.X, d+1)
+			case *ssa.Extract:
+				if call, ok := x.Tuple.(*ssa.Call); ok && isProducer(call) {
+					return
+				}
+				leaf(v)
+			case *ssa.MakeSlice, *ssa.Alloc:
+				// elements written through IndexAddr of this buffer (or of slices of it)
+				var refs func(b ssa.Value, dd int)
+				refs = func(b ssa.Value, dd int) {
+					if dd > 4 || b.Referrers() == nil {
+						return
+					}
+					for _, r := range *b.Referrers() {
+						switch y := r.(type) {
+						case *ssa.IndexAddr:
+							for _, r2 := range *y.Referrers() {
+								if st, ok := r2.(*ssa.Store); ok && st.Addr == ssa.Value(y) {
+									walk(st.Val, d+1)
+								}
+							}
+						case *ssa.Slice:
+							refs(y, dd+1)
+						case *ssa.Phi:
+							refs(y, dd+1)
+						}
+					}
+				}
+				refs(x, 0)
+			default:
+				leaf(v)
+			}
+		}
+		walk(an.CallOf(in).Args[1], 0)
+		key := fmt.Sprintf("doEvaluate: operator input #%d comes from the transformation list only", n)
+		if len(bad) > 0 {
+			c.Bad("R3", key, in.Pos(), "executeOperator can be given "+strings.Join(bad, ", ")+", which is not a result of transformArg / transformMultiMatchArg: for those values the rule is not evaluated against its own transformation list")
+		} else {
+			c.Ok("R3", key, in.Pos(), "every producer of the operator's argument is transformArg or transformMultiMatchArg")
+		}
+	})
+	c.MinCount("R3", "executeOperator calls in doEvaluate", n, 1)
 }
 
 func c12Cleared(c *an.Ctx) {
